@@ -339,6 +339,23 @@ func c09Oracle(ps *spec.Plan, sk *spec.PlanView, t *oracle.Trace) []ev.Violation
 		add("finished-plan-rerun", stName(sk.Status("P")), "the plan was durably %s at the crash, yet %s was invoked after restart", stName(sk.Status("P")), t.Invs[0].Tag)
 		return out
 	}
+	// a re-run that invokes no plugin (the stored result of every action is reused) still shows in what the recovering
+	// process writes: a sequence, block or sequence action that was durably Completed/Failed is never written Running
+	byID := map[string]*spec.ObjView{}
+	for i := range sk.Objs {
+		byID[sk.Objs[i].ID] = &sk.Objs[i]
+	}
+	for _, w := range t.Writes {
+		o := byID[w.ObjID]
+		if o == nil || w.Status != spec.Running || !isTerminal(o.Status) {
+			continue
+		}
+		if o.Kind == "checks" || (o.Kind == "action" && !strings.Contains(o.Addr, ".S")) {
+			continue // check groups are re-run by design
+		}
+		add("finished-"+o.Kind+"-rerun", "written-running,"+stName(o.Status), "%s %s was durably %s at the crash, yet the recovering process wrote it as Running again", o.Kind, o.Addr, stName(o.Status))
+		break
+	}
 	for bi := range ps.Blocks {
 		b := &ps.Blocks[bi]
 		ba := fmt.Sprintf("B%d", bi)
@@ -1152,6 +1169,234 @@ func c04Crash(c *Ctx, idx int) CaseResult {
 		res.ISig = res.Nontriv
 		if idx%100 == 24 {
 			res.Sample = map[string]any{"mode": "consistency of the plan Wait returns in the process that resumed it, every crash point", "source": src, "plan": ps, "writes": cp.NW}
+		}
+	}
+	if len(res.Viols) > 0 {
+		res.Witness = map[string]any{"plan": ps, "first": first}
+	}
+	return res
+}
+
+// ---------- C06 under recovery: a gate that was durably decided stays decided ----------
+
+// crashGatePlan: scopes whose bypass / pre / continuous gate is decided (failed or passed) while the other gating
+// group is still executing; in half of the plans the checks that failed before the crash pass after the restart
+// (Steps2) and the other way round - a durable decision must not be taken again.
+func crashGatePlan(r *rand.Rand, variant int) spec.Plan {
+	p := spec.Plan{Name: "p0"}
+	// the variant enumerates level x gate situation, so that ten consecutive crash cases cover all of them
+	blockLevel, gcase, heal := variant%2 == 0, (variant/2)%5, (variant/10)%3 != 2
+	grp := func(ok bool, lo, hi int) *spec.Checks {
+		a := spec.Action{Steps: step(ok, lo+r.Intn(hi-lo+1))}
+		if heal {
+			a.Steps2 = step(!ok, 50+r.Intn(200))
+		}
+		return &spec.Checks{DelayUS: 300 + r.Intn(500), Actions: []spec.Action{a}}
+	}
+	blk := spec.Block{Conc: 1 + r.Intn(2), Tol: 0}
+	for si := 0; si < 1+r.Intn(2); si++ {
+		blk.Seqs = append(blk.Seqs, spec.Seq{Actions: []spec.Action{{Steps: step(true, 300+r.Intn(600))}}})
+	}
+	gate := func(pre, cont, bypass **spec.Checks) {
+		switch gcase {
+		case 0: // continuous check fails at once, pre-checks still running
+			*pre = grp(true, 1200, 2500)
+			*cont = grp(false, 50, 300)
+		case 1: // pre-checks fail at once, first continuous run still executing
+			*pre = grp(false, 50, 300)
+			*cont = grp(true, 1200, 2500)
+		case 2: // only a failing continuous check
+			*cont = grp(false, 50, 600)
+		case 3: // only failing pre-checks
+			*pre = grp(false, 50, 600)
+		case 4: // bypass passes
+			*bypass = grp(true, 50, 600)
+			if r.Intn(2) == 0 {
+				*pre = grp(true, 50, 300)
+			}
+		}
+	}
+	if blockLevel {
+		gate(&blk.Pre, &blk.Cont, &blk.Bypass)
+	} else {
+		gate(&p.Pre, &p.Cont, &p.Bypass)
+	}
+	if r.Intn(2) == 0 {
+		blk.Deferred = &spec.Checks{DelayUS: 300, Actions: []spec.Action{{Steps: step(true, 50+r.Intn(300))}}}
+	}
+	if r.Intn(2) == 0 {
+		p.Deferred = &spec.Checks{DelayUS: 300, Actions: []spec.Action{{Steps: step(true, 50+r.Intn(300))}}}
+	}
+	p.Blocks = append(p.Blocks, blk)
+	if r.Intn(2) == 0 {
+		p.Blocks = append(p.Blocks, spec.Block{Conc: 1, Tol: 0, Seqs: []spec.Seq{{Actions: []spec.Action{{Steps: step(true, 300)}}}}})
+	}
+	p.AssignTags()
+	return p
+}
+
+// gateRecovered: the C06 rules on (durable state at the crash, what the recovering process did, final plan).
+func gateRecovered(ps *spec.Plan, sk, fp *spec.PlanView, t *oracle.Trace) []ev.Violation {
+	var out []ev.Violation
+	add := func(rule, disc, f string, a ...any) { out = append(out, ev.V("C06", "recovered/"+rule, disc, f, a...)) }
+	scope := func(name string, blocks []int, hasPre, hasCont, hasBypass bool) {
+		inScope := func(inv oracle.Inv) bool {
+			if name == "P" {
+				return true
+			}
+			return inv.Addr.Block == blocks[0]
+		}
+		seqStarted := false
+		for _, bi := range blocks {
+			for si := range ps.Blocks[bi].Seqs {
+				if sk.Status(fmt.Sprintf("B%d.S%d", bi, si)) != spec.NotStarted {
+					seqStarted = true
+				}
+			}
+		}
+		gateFailed := ""
+		if hasPre && sk.Status(name+".pre") == spec.Failed {
+			gateFailed = "pre"
+		} else if hasCont && sk.Status(name+".cont") == spec.Failed && !seqStarted {
+			gateFailed = "cont"
+		}
+		if hasBypass && sk.Status(name+".bypass") == spec.Completed {
+			for _, inv := range t.Invs {
+				if inScope(inv) && !(inv.Addr.Kind == "bypass" && inv.Addr.Scope() == name) {
+					add("bypassed-scope-ran", name[:1], "the bypass checks of %s were durably Completed at the crash, yet %s was invoked after restart", name, inv.Tag)
+					break
+				}
+			}
+			return
+		}
+		if gateFailed == "" {
+			return
+		}
+		for _, inv := range t.Invs {
+			if inScope(inv) && inv.Addr.Kind == "seq" {
+				add("gate-failed-ran", name[:1]+","+gateFailed, "the %s checks of %s were durably Failed at the crash (no sequence of the scope had started), yet sequence action %s was invoked after restart", gateFailed, name, inv.Tag)
+				break
+			}
+		}
+		if fp != nil && fp.Status(name) != spec.Failed {
+			add("gate-failed-status", name[:1]+","+gateFailed+","+stName(fp.Status(name)), "the %s checks of %s were durably Failed at the crash, yet %s ended %s", gateFailed, name, name, stName(fp.Status(name)))
+		}
+	}
+	all := make([]int, len(ps.Blocks))
+	for i := range all {
+		all[i] = i
+	}
+	scope("P", all, ps.Pre != nil, ps.Cont != nil, ps.Bypass != nil)
+	for bi := range ps.Blocks {
+		b := &ps.Blocks[bi]
+		scope(fmt.Sprintf("B%d", bi), []int{bi}, b.Pre != nil, b.Cont != nil, b.Bypass != nil)
+	}
+	return out
+}
+
+func c06Crash(c *Ctx, idx int) CaseResult {
+	res := CaseResult{Counters: map[string]int{}}
+	r := gen.Rand(c.Seed, "C06crash", idx)
+	ps := crashGatePlan(r, (idx-486)/15)
+	var first any
+	cp := exploreCrashes(&ps, r, 1<<30, &res, func(sk *spec.PlanView, rec *crash.Recovery, t *oracle.Trace, second bool, k, j int) {
+		if rec == nil || !rec.Returned || rec.Final == nil || sk.Status("P") != spec.Running {
+			return
+		}
+		res.Counters["recovered_gates"]++
+		vs := gateRecovered(&ps, sk, rec.Final, t)
+		if len(vs) > 0 && first == nil {
+			first = map[string]any{"k": k, "durable_state": describeSk(sk), "final": rec.Final, "recovery_events": rec.Events}
+		}
+		res.Viols = append(res.Viols, vs...)
+	})
+	if cp != nil {
+		res.Nontriv = hashStr(fmt.Sprint("crash", ps))
+		res.ISig = res.Nontriv
+		if idx%200 == 49 {
+			res.Sample = map[string]any{"mode": "gates decided before a crash stay decided after the restart, every crash point", "plan": ps, "writes": cp.NW}
+		}
+	}
+	if len(res.Viols) > 0 {
+		res.Witness = map[string]any{"plan": ps, "first": first}
+	}
+	return res
+}
+
+// ---------- C07 under recovery: deferred checks still run, a recorded continuous failure still fails the scope ----------
+
+func c07Crash(c *Ctx, idx int) CaseResult {
+	res := CaseResult{Counters: map[string]int{}}
+	r := gen.Rand(c.Seed, "C07crash", idx)
+	var ps spec.Plan
+	switch (idx / 40) % 3 {
+	case 0:
+		ps = crashPreContPlan(r)
+	case 1:
+		ps = crashBusyPlan(r)
+	default:
+		ps = crashRandPlan(r)
+	}
+	// every scope that can be entered gets deferred checks
+	dg := func() *spec.Checks {
+		return &spec.Checks{DelayUS: 300, Actions: []spec.Action{{Steps: step(r.Intn(5) != 0, 50+r.Intn(400))}}}
+	}
+	if ps.Deferred == nil {
+		ps.Deferred = dg()
+	}
+	for bi := range ps.Blocks {
+		if ps.Blocks[bi].Deferred == nil && r.Intn(3) != 0 {
+			ps.Blocks[bi].Deferred = dg()
+		}
+	}
+	ps.AssignTags()
+	var first any
+	cp := exploreCrashes(&ps, r, 1<<30, &res, func(sk *spec.PlanView, rec *crash.Recovery, t *oracle.Trace, second bool, k, j int) {
+		if rec == nil || !rec.Returned || rec.Final == nil || sk.Status("P") != spec.Running {
+			return
+		}
+		res.Counters["recovered_scopes"]++
+		fp := rec.Final
+		var vs []ev.Violation
+		add := func(rule, disc, f string, a ...any) { vs = append(vs, ev.V("C07", "recovered/"+rule, disc, f, a...)) }
+		chk := func(scope string, d, cont, bypass *spec.Checks) {
+			if fp.Status(scope) == spec.NotStarted || (bypass != nil && fp.Status(scope+".bypass") == spec.Completed) {
+				return
+			}
+			if d != nil {
+				if st := fp.Status(scope + ".deferred"); !isTerminal(st) {
+					add("deferred-not-run", scope[:1]+","+stName(fp.Status(scope)), "%s was entered and not bypassed (final %s) but its deferred checks are %s after recovery; durable state at the crash: %s", scope, stName(fp.Status(scope)), stName(st), describeSk(sk))
+				} else {
+					runs := 0
+					for _, inv := range t.Invs {
+						if inv.Tag == d.Actions[0].Tag && inv.N == 1 {
+							runs++
+						}
+					}
+					if runs > 1 {
+						add("deferred-twice", scope[:1], "the deferred checks of %s were started %d times in the recovering process", scope, runs)
+					}
+				}
+			}
+			if cont != nil && sk.Status(scope+".cont") == spec.Failed && fp.Status(scope) != spec.Failed {
+				add("cont-failure-lost", scope[:1]+","+stName(fp.Status(scope)), "a continuous check of %s was durably Failed at the crash, yet %s ended %s", scope, scope, stName(fp.Status(scope)))
+			}
+		}
+		chk("P", ps.Deferred, ps.Cont, ps.Bypass)
+		for bi := range ps.Blocks {
+			b := &ps.Blocks[bi]
+			chk(fmt.Sprintf("B%d", bi), b.Deferred, b.Cont, b.Bypass)
+		}
+		if len(vs) > 0 && first == nil {
+			first = map[string]any{"k": k, "durable_state": describeSk(sk), "final": fp, "recovery_events": rec.Events}
+		}
+		res.Viols = append(res.Viols, vs...)
+	})
+	if cp != nil {
+		res.Nontriv = hashStr(fmt.Sprint("crash", ps))
+		res.ISig = res.Nontriv
+		if idx%200 == 39 {
+			res.Sample = map[string]any{"mode": "deferred checks and recorded continuous failures across a crash, every crash point", "plan": ps, "writes": cp.NW}
 		}
 	}
 	if len(res.Viols) > 0 {
